@@ -42,12 +42,15 @@ def make_pool(level):
     p['SC'] = SubComponent('HD_1', version=V, validation_level=level, value='hd')
     p['XL'] = Field('PID_3', version=V, validation_level=other)       # other validation level
     p['XV'] = Field('PID_3', version='2.4', validation_level=level)    # other version
+    p['XE'] = Field('PID_3', version='2.5.1', validation_level=level)  # the errata release of the same version
+    p['XE'].value = 'E1'
+    p['SE'] = Segment('PID', version='2.5.1', validation_level=level)
     return p
 
 
 PAIRS = [('S1', 'M'), ('S2', 'M'), ('SI', 'G'), ('G', 'M'), ('F1', 'S1'), ('F1', 'S2'), ('F2', 'S1'), ('C1', 'F1'), ('C2', 'F1'),
          ('C1', 'F2'), ('SC', 'C2'), ('SC', 'C1'), ('XL', 'S1'), ('XV', 'S1'), ('S1', 'G'), ('F1', 'M'), ('C1', 'S1'), ('M', 'S1'),
-         ('S1', 'S2'), ('F1', 'F2')]
+         ('S1', 'S2'), ('F1', 'F2'), ('XE', 'S1'), ('SE', 'M'), ('F1', 'SE')]
 
 
 class PoolSpec(hist.Spec):
